@@ -16,7 +16,7 @@ from vlib import xh
 from vlib import zt
 from vlib.build import build
 from vlib.driver import Report
-from vlib.par import pmap
+from vlib.par import pmap, run_groups
 from vlib.session import run_case, Violation
 
 PID = "C04"
@@ -39,6 +39,37 @@ SHAPES = {
 
 def gen_routes(n, legs, rng, limit):
     """all (or a seeded sample of) pairwise contraction routes: list of steps (i, j, swap, axes_perm_seed)"""
+    if n > 3:
+        # too many to enumerate: draw routes directly (seeded), first one deterministic left-to-right
+        routes = []
+        seen = set()
+        tries = 0
+        while len(routes) < limit and tries < limit * 20:
+            tries += 1
+            cur = [list(l) for l in legs]
+            steps = []
+            first = not routes
+            while len(cur) > 1:
+                pairs = list(itertools.combinations(range(len(cur)), 2))
+                # prefer connected pairs (outer products are still drawn now and then)
+                conn = [(i, j) for i, j in pairs if any(l in cur[j] for l in cur[i])]
+                i, j = pairs[0] if first else rng.choice(conn if (conn and rng.random() < 0.85) else pairs)
+                if first and conn:
+                    i, j = conn[0]
+                swap = False if first else rng.random() < 0.5
+                a, b = (cur[j], cur[i]) if swap else (cur[i], cur[j])
+                shared = [l for l in a if l in b]
+                p = tuple(range(len(shared)))
+                if not first and len(shared) > 1:
+                    p = tuple(rng.sample(range(len(shared)), len(shared)))
+                new = [l for l in a if l not in shared] + [l for l in b if l not in shared]
+                cur = [c for k, c in enumerate(cur) if k not in (i, j)] + [new]
+                steps.append((i, j, swap, p))
+            t = tuple(steps)
+            if t not in seen:
+                seen.add(t)
+                routes.append(t)
+        return routes, False
     routes = []
 
     def rec(cur, steps):
@@ -297,10 +328,7 @@ def run(tier, seed, only=None):
                   "routes": "all for 2 tensors; seeded sample of <=14/16 (30/40 thorough) for 3/4 tensors"}
     rep.outside = ["networks with more than 4 tensors", "routes not sampled (reported exhaustive=false)"]
     groups = build_family(tier, seed)
-    for name, (cases, ex) in groups.items():
-        if only and only not in name:
-            continue
-        rep.add_cases(name, pmap(_run, cases), exhaustive=ex)
+    run_groups(rep, groups, _run, only)
     if not only or "xh" in only:
         res, herr = xh.run_all(os.path.join(env.VERIF, "harness", "h_c04.py"), timeout=200 if tier == "quick" else 600)
         rep.add_xh(res)
